@@ -9,6 +9,7 @@ from pathlib import Path
 sys.path.insert(0, str(Path(__file__).resolve().parent.parent))
 from sa.core import Repo  # noqa: E402
 from sa.shapes import REF_FILE, tokens_of  # noqa: E402
+from sa.canon import stored_names  # noqa: E402
 
 repo = Repo()
 out = {fi.where: tokens_of(fi.node) for fi in repo.all_funcs()}
@@ -17,5 +18,7 @@ dirty = subprocess.run(["git", "-C", str(repo.root), "status", "--short", "--", 
 assert not dirty, "the working tree of the repository is not clean"
 REF_FILE.parent.mkdir(exist_ok=True)
 consts = {m.name: sorted(m.assigns) for m in repo.modules.values()}
-REF_FILE.write_text(json.dumps({"commit": head, "functions": out, "module_names": consts}))
+locs = {fi.where: sorted(stored_names(fi.node)) for fi in repo.all_funcs()}
+numbered = {fi.where: tokens_of(fi.node, numbered=True) for fi in repo.all_funcs()}
+REF_FILE.write_text(json.dumps({"commit": head, "functions": out, "functions_numbered": numbered, "module_names": consts, "locals": locs}))
 print(len(out), "functions", head)
